@@ -440,6 +440,19 @@ func (f *Frame) applyContract(sig *types.Signature, ct *Contract, env map[string
 				Clause: "precondition of " + calleeName + ": " + cl.Text + "   at: " + desc})
 		}
 	}
+	// recursion: the measure decreases at a recursive call
+	if ct.Key() == s.C.Key() && ct.Kind == "func" && !f.dry {
+		if ct.Decreases == nil {
+			s.addObl(&Obligation{Name: s.C.Key() + "#decreases(missing)", Kind: "decreases", Guard: f.cur.reach, Goal: "false", Pos: pos,
+				Clause: "a recursive function needs a decreases clause"})
+		} else {
+			top := s.topFrame
+			before := top.evalExprView(*ct.Decreases, s.plainView(s.entry), s.plainView(s.entry), nil).(S).T
+			after := g.evalExprView(*ct.Decreases, preView, preView, nil).(S).T
+			s.addObl(&Obligation{Name: s.C.Key() + "#decreases", Kind: "decreases", Guard: f.cur.reach, Goal: and(app("<", after, before), app(">=", before, "0")), Pos: pos,
+				Clause: "recursion measure decreases: " + ct.Decreases.Text})
+		}
+	}
 	// panics
 	if ct.MayPanic || len(ct.PanicsOnlyIf) > 0 || len(ct.PanicsIf) > 0 {
 		pc := s.freshConst("callpanics", "Bool")
